@@ -288,10 +288,11 @@ impl SwiftField for Field55ThirdReimbursementInstitution {
                 let field = Field55D::parse(value)?;
                 Ok(Field55ThirdReimbursementInstitution::D(field))
             }
-            _ => {
-                // No variant specified, fall back to default parse behavior
-                Self::parse(value)
-            }
+            // No option letter given: fall back to content-based detection
+            None => Self::parse(value),
+            Some(other) => Err(ParseError::InvalidFormat {
+                message: format!("Field 55 has no option '{}'", other),
+            }),
         }
     }
 
